@@ -26,7 +26,14 @@ type Bounce struct {
 	Fail []BouncePlan // per report (in order of Start calls)
 	// OnCall, if set, is invoked at the beginning of every call (crash gate).
 	OnCall func()
-	n      int
+	// Sender is the address the reports are expected to go to; OrigSubject the Subject
+	// of the failed message (for the "carries the original header" clause).
+	Sender      string
+	OrigSubject string
+	// Next, if set, receives every call as well (e.g. a second real queue standing in for
+	// a bounce pipeline that routes into a queue); its errors are ignored.
+	Next module.DeliveryTarget
+	n    int
 }
 
 func (b *Bounce) gate() {
@@ -40,6 +47,7 @@ type BouncePlan struct {
 }
 
 type bounceDelivery struct {
+	next   module.Delivery
 	b      *Bounce
 	n      int
 	plan   BouncePlan
@@ -65,10 +73,15 @@ func (b *Bounce) Start(ctx context.Context, msgMeta *module.MsgMetadata, mailFro
 	}
 	res := orOK(plan.Start)
 	b.Tr.Emit("DStart", vtrace.Ev{"n": b.n, "from": mailFrom, "res": res})
+	d := &bounceDelivery{b: b, n: b.n, plan: plan, from: mailFrom}
 	if err := ErrFor(res, "bounce Start"); err != nil {
+		d.final("start", res)
 		return nil, err
 	}
-	return &bounceDelivery{b: b, n: b.n, plan: plan, from: mailFrom}, nil
+	if b.Next != nil {
+		d.next, _ = b.Next.Start(ctx, msgMeta, mailFrom)
+	}
+	return d, nil
 }
 
 func (d *bounceDelivery) AddRcpt(ctx context.Context, rcptTo string, _ smtp.RcptOptions) error {
@@ -79,14 +92,58 @@ func (d *bounceDelivery) AddRcpt(ctx context.Context, rcptTo string, _ smtp.Rcpt
 		return err
 	}
 	d.to = append(d.to, rcptTo)
+	if d.next != nil {
+		d.next.AddRcpt(ctx, rcptTo, smtp.RcptOptions{})
+	}
 	return nil
+}
+
+// final emits the one "Dsn" event that closes a report hand-over. stage = "ok" or the
+// stage whose scripted failure ended it.
+func (d *bounceDelivery) final(stage, res string) {
+	ev := vtrace.Ev{"n": d.n, "stage": stage, "res": res, "known": d.report != nil, "from": d.from,
+		"rcpts": []string{}, "rewritten": []string{}, "status": map[string]string{"-": "-"}, "mimeOK": true,
+		"reportType": "delivery-status", "parts": 3, "dsnAscii": true, "hasOrigHdr": true,
+		"origSubjOK": true, "toSender": true, "to": ""}
+	if len(d.to) > 0 {
+		ev["to"] = d.to[0]
+		ev["toSender"] = len(d.to) == 1 && d.to[0] == d.b.Sender
+	} else if stage != "start" && stage != "rcpt" {
+		ev["toSender"] = false
+	}
+	if d.report != nil {
+		for _, k := range []string{"mimeOK", "reportType", "parts", "dsnAscii", "hasOrigHdr", "status"} {
+			ev[k] = d.report[k]
+		}
+		var listed, rewritten []string
+		listed, rewritten = []string{}, []string{}
+		for _, r := range d.report["rcpts"].([]string) {
+			if strings.HasPrefix(r, "eff:") {
+				rewritten = append(rewritten, strings.TrimPrefix(r, "eff:"))
+				r = strings.TrimPrefix(r, "eff:")
+			}
+			listed = append(listed, r)
+		}
+		st := map[string]string{}
+		for k, v := range d.report["status"].(map[string]string) {
+			st[strings.TrimPrefix(k, "eff:")] = v
+		}
+		if len(st) == 0 {
+			st["-"] = "-"
+		}
+		ev["status"] = st
+		ev["rcpts"], ev["rewritten"] = listed, rewritten
+		oh, _ := d.report["origHdr"].(string)
+		ev["origSubjOK"] = d.b.OrigSubject == "" || strings.Contains(oh, d.b.OrigSubject)
+	}
+	d.b.Tr.Emit("Dsn", ev)
 }
 
 // ParseReport extracts an abstract record from a multipart/report message
 // using only the standard library.
 func ParseReport(hdr mtextproto.Header, body []byte, id func(string) string) vtrace.Ev {
 	rec := vtrace.Ev{"mimeOK": false, "rcpts": []string{}, "status": map[string]string{},
-		"action": map[string]string{}, "hasOrigHdr": false, "parts": 0, "reportType": ""}
+		"action": map[string]string{}, "hasOrigHdr": false, "parts": 0, "reportType": "", "dsnAscii": true}
 	ct := hdr.Get("Content-Type")
 	mt, params, err := mime.ParseMediaType(ct)
 	if err != nil || !strings.EqualFold(mt, "multipart/report") {
@@ -114,6 +171,11 @@ func ParseReport(hdr mtextproto.Header, body []byte, id func(string) string) vtr
 		data, _ := io.ReadAll(p)
 		switch strings.ToLower(pct) {
 		case "message/delivery-status", "message/global-delivery-status":
+			for _, c := range data {
+				if c >= 0x80 {
+					rec["dsnAscii"] = false
+				}
+			}
 			rd := textproto.NewReader(bufio.NewReader(bytes.NewReader(data)))
 			first := true
 			for {
@@ -171,6 +233,9 @@ func (d *bounceDelivery) Body(ctx context.Context, header mtextproto.Header, bod
 	}
 	delete(ev, "origHdr")
 	d.b.Tr.Emit("DBody", ev)
+	if d.next != nil {
+		d.next.Body(ctx, header, body)
+	}
 	return ErrFor(res, "bounce Body")
 }
 
@@ -181,24 +246,34 @@ func (d *bounceDelivery) Commit(ctx context.Context) error {
 		d.b.Tr.Emit("DMisuse", vtrace.Ev{"n": d.n, "op": "Commit"})
 	}
 	d.closed = true
-	rc := []string{}
-	if d.report != nil {
-		rc = d.report["rcpts"].([]string)
+	if d.next != nil {
+		d.next.Commit(ctx)
 	}
-	to := ""
-	if len(d.to) > 0 {
-		to = d.to[0]
+	if res == "ok" {
+		d.final("ok", "ok")
+	} else {
+		d.final("commit", res)
 	}
-	d.b.Tr.Emit("Dsn", vtrace.Ev{"n": d.n, "res": res, "rcpts": rc, "from": d.from, "to": to})
 	return ErrFor(res, "bounce Commit")
 }
 
 func (d *bounceDelivery) Abort(ctx context.Context) error {
 	d.b.gate()
-	if d.closed {
+	if d.closed { // Abort after a failed Commit: tolerated, the hand-over is already closed
 		d.b.Tr.Emit("DMisuse", vtrace.Ev{"n": d.n, "op": "Abort"})
+		return nil
 	}
 	d.closed = true
-	d.b.Tr.Emit("DAbort", vtrace.Ev{"n": d.n})
+	if d.next != nil {
+		d.next.Abort(ctx)
+	}
+	stage, res := "abort", "unspec"
+	switch {
+	case orOK(d.plan.Rcpt) != "ok":
+		stage, res = "rcpt", d.plan.Rcpt
+	case orOK(d.plan.Body) != "ok":
+		stage, res = "body", d.plan.Body
+	}
+	d.final(stage, res)
 	return nil
 }
